@@ -187,6 +187,45 @@ def gen_same_type_name_prog(r):
     return "".join(L)
 
 
+def gen_project_sources(ck, n):
+    """Pairs of projects on disk whose main files are the SAME text and pull in a file by the same bare name (include / `mod x`), which
+    resolves to DIFFERENT files: for ws_a through the workspace's lib/ directory, for proj_b next to the including file.  Each main file
+    is observed alone and after its sibling has been compiled in the same process (response to seeded change C15c: a process-wide cache
+    of parsed includes keyed by the name as written)."""
+    import shutil
+    import atexit
+    root = os.path.join(VERIF, ".cache", "tmp", "C15proj-%s-%d" % (ck.seed, os.getpid()))     # private to this run
+    shutil.rmtree(root, ignore_errors=True)
+    atexit.register(shutil.rmtree, root, ignore_errors=True)
+    out = []
+    for i in range(n):
+        r = ck.rng.fork(("C15proj", i))
+        lib = r.choice(["filterlib", "voices", "fx", "util%d" % i])
+        form = r.choice(["include", "include", "mod"])
+        fa = r.choice(["x * 0.5", "x + 1.0", "x * x"])
+        fb = r.choice(["self * 0.5 + x * 0.5", "mem(x) + x", "delay(4.0, x, 2.0) + x", "x * 0.25 + 3.0"])
+        if form == "include":
+            song = 'include("%s.mmm")\nfn dsp(){\n  smooth(%s.0) + now\n}\n' % (lib, r.range(1, 9))
+            mk = lambda body: "fn smooth(x){\n  %s\n}\n" % body
+        else:
+            song = 'mod %s\nfn dsp(){\n  %s::smooth(%s.0) + now\n}\n' % (lib, lib, r.range(1, 9))
+            mk = lambda body: "pub fn smooth(x){\n  %s\n}\n" % body
+        d = os.path.join(root, "p%d" % i)
+        files = {"ws_a/lib/%s.mmm" % lib: mk(fa), "ws_a/song.mmm": song, "proj_b/%s.mmm" % lib: mk(fb), "proj_b/song.mmm": song}
+        if r.below(2):
+            files["ws_a/lib/%s.mmm" % lib], files["proj_b/%s.mmm" % lib] = mk(fb), mk(fa)
+        for rel, txt in files.items():
+            os.makedirs(os.path.dirname(os.path.join(d, rel)), exist_ok=True)
+            open(os.path.join(d, rel), "w").write(txt)
+        a = {"name": "proj-%d/ws_a/song.mmm" % i, "src": song, "path": os.path.join(d, "ws_a", "song.mmm"), "sched": False, "kind": "project",
+             "files": files}
+        b = {"name": "proj-%d/proj_b/song.mmm" % i, "src": song, "path": os.path.join(d, "proj_b", "song.mmm"), "sched": False, "kind": "project",
+             "files": files}
+        a["sibling"], b["sibling"] = b, a
+        out += [a, b]
+    return out
+
+
 def gen_module_sources(ck, n):
     return [{"name": "gen-mods-%d" % i, "src": gen_module_prog(ck.rng.fork(("C15mods", i))), "path": None, "sched": False,
              "kind": "gen-mods"} for i in range(n)] + \
@@ -273,7 +312,11 @@ def prelude_for(s, mode, r):
     mode "rev":   a program mentioning the identifiers of s in REVERSE order of first occurrence (a fresh process interns them in
                   order of first occurrence, so every pair of names ends up in the opposite Symbol order);
     mode "shuf":  the identifiers in random order;
-    mode "uses":  s itself with its `use` statements in reverse order (also permutes the mangled names a$b of nested paths)."""
+    mode "uses":  s itself with its `use` statements in reverse order (also permutes the mangled names a$b of nested paths).
+    A source that has a SIBLING project (gen_project_sources) is always preceded by its sibling."""
+    if s.get("sibling"):
+        b = s["sibling"]
+        return {"op": "hist", "src": b["src"], "path": b["path"], "sched": b["sched"], "tag": "sibling-project(" + b["name"] + ")"}
     if mode == "uses":
         lines = s["src"].split("\n")
         idx = [i for i, l in enumerate(lines) if re.match(r"\s*(pub\s+)?use\b", l)]
@@ -412,7 +455,7 @@ def run(ck):
 
     # ---- sources -------------------------------------------------------------------------------------------------
     n_samples = 32
-    srcs = corpus_sources() + shipped_sources() + gen_core_sources(ck, 100 if quick else 1200) + gen_type_sources(ck, 30 if quick else 300) + gen_module_sources(ck, 40 if quick else 400)
+    srcs = corpus_sources() + shipped_sources() + gen_core_sources(ck, 100 if quick else 1200) + gen_type_sources(ck, 30 if quick else 300) + gen_module_sources(ck, 40 if quick else 400) + gen_project_sources(ck, 8 if quick else 40)
     if ck.replay:
         rp = json.load(open(ck.replay))["replay"]
         if "source" in rp:
@@ -610,6 +653,7 @@ def run(ck):
                 detail["first_difference"] = "the difference depends on the hash seed of the process and did not recur in the re-run; digests: %s vs %s" % (k1, k2)
         viol.append(("the same source yields different %s in two compilations" % art,
                      {"source": s["src"], "path": s["path"], "sched": s["sched"], "name": s["name"], **detail,
+                      **({"project_files": s["files"]} if s.get("files") else {}),
                       "how": "./check C15 --replay <this file>   (or: feed determinism_run the two requests {\"op\":\"hist\",\"src\":<prior_program>} and "
                              "{\"op\":\"obs\",\"src\":<source>,\"full\":true} in one process, and the second one alone in another process)"}, False))
 
